@@ -12,6 +12,9 @@ for d in sorted(glob.glob('/verif/seeded/*/')):
     for x in m.get('detected_by',[]):
         if x.get('detected'):
             det.append("%s (%ds): %s"%(x['check'],x['wall_s'],', '.join(s.split('/',1)[1] if '/' in s else s for s in x['signatures'][:3])))
+    if m.get('retired'):
+        rows.append((name,title,'retired: '+m.get('note','')[:160]+' …'))
+        continue
     rows.append((name,title,'; '.join(det) if det else '**not detected**'))
 out=["| seeded change | what it does (author's title) | detected by (quick tier, wall time): signatures |","|---|---|---|"]
 for r in rows: out.append("| %s | %s | %s |"%r)
@@ -29,7 +32,8 @@ if os.path.exists('/verif/sensitivity/RESULTS.txt'):
         res=("detected (%ss): %s"%(wall,', '.join(x.split('/',1)[1] if '/' in x else x for x in s[:3]))) if rc=='1' else ("**not detected** (see below)" if rc=='0' else "harness error")
         out.append("| %s | %s |"%(name.replace('__',' / '),res))
 nd=sum(1 for r in rows if 'not detected' in r[2])
-out.insert(0,"%d of %d sub-agent changes are detected by the quick check of their own property or (where noted) of a neighbouring one.\n"%(len(rows)-nd,len(rows)))
+nr=sum(1 for r in rows if r[2].startswith('retired'))
+out.insert(0,"%d of %d active sub-agent changes (%d retired) are detected by the quick check of their own property or (where noted) of a neighbouring one.\n"%(len(rows)-nd-nr,len(rows)-nr,nr))
 txt="<!-- MATRIX-BEGIN -->\n"+"\n".join(out)+"\n<!-- MATRIX-END -->"
 d=open('/verif/DESIGN.md').read()
 if '@@MATRIX@@' in d: d=d.replace('@@MATRIX@@',txt)
